@@ -19,14 +19,16 @@ RULE = ("Planted structures (all cell classes incl. every tilt-sign combination,
         "proper rigid motion with max residual <= atol*(2+4*R/l); every inserted atom has fractional coordinates in "
         "[0,1]; moving both patterns by the same rigid motion leaves the result unchanged as a multiset of (element, "
         "position mod lattice) where the statement pins it (search pattern without symmetry, or replacement-only atoms "
-        "on the symmetry line/point). Non-trivial: at least one inserted atom was wrapped by a lattice vector or the "
+        "on the symmetry line/point). History: the returned structure is replicated, or one of its cell vectors is doubled "
+        "(in place / by assignment), and a second replacement on it (replacement pattern -> search pattern) is judged the "
+        "same way; replacement atoms displaced by 2e-5..0.08 A from a search atom of the same element are new atoms. Non-trivial: at least one inserted atom was wrapped by a lattice vector or the "
         "cell is triclinic; distinct by seed.")
 ASSUMPTIONS = ["the periodic image of an inserted atom is chosen nearest to the location predicted with the rotation mofun returned; a wrong rotation then shows up as a failed rigid fit",
                "cases in which the found matches share atoms, or the search raises, are not judged here"]
 ANCHOR_FUNCS = [("mofun/mofun.py", "replace_pattern_in_structure")]
 REQUIRED_LINES = [("mofun/mofun.py", "new_atoms.translate(atom_positions[0])"), ("mofun/mofun.py", "new_atoms.positions = q.apply(new_atoms.positions)")]
 JOBS = {"quick": 4, "thorough": 16}
-REPLS = ["far_reaching", "larger_shared", "larger_disjoint", "equal_partial", "equal_substitution", "smaller_disjoint", "far_reaching"]
+REPLS = ["far_reaching", "larger_shared", "larger_disjoint", "equal_partial", "equal_substitution", "smaller_disjoint", "far_reaching", "nudged"]
 
 
 def cases(tier, seed):
@@ -240,6 +242,38 @@ def run_case(case, ctx):
                 st.count("joint_motion_not_judged")
         else:
             st.count("joint_motion_not_pinned_by_statement")
+    # history: the RETURNED structure gets another cell (replicated, or a cell vector doubled where it is) and is the
+    # input of a second replacement (the replacement pattern is searched and turned back into the search pattern)
+    if obs["selected"] and case["s"] % 3 != 1:
+        from vmon.contracts import c01_domain
+        how = ["replicate", "cell_vector_doubled_in_place", "cell_assigned"][int(rng.integers(3))]
+        k = int(rng.integers(3))
+        if how == "replicate":
+            S2 = out.replicate(tuple(2 if i == k else 1 for i in range(3)))
+        elif how == "cell_vector_doubled_in_place":
+            out.cell[k] *= 2.0
+            S2 = out
+        else:
+            newcell = np.array(out.cell, float)
+            newcell[k] = newcell[k] * 2.0
+            out.cell = newcell
+            S2 = out
+        pat2 = {"elements": list(rep["elements"]), "positions": np.asarray(rep["positions"], float).reshape(-1, 3), "continuous_symmetry": None, "cls": "replacement:" + rep["kind"]}
+        rep2 = {"elements": list(pat["elements"]), "positions": np.asarray(pat["positions"], float), "kind": "back_to_search_pattern"}
+        P2, R2 = patterns.to_atoms(pat2, id_base=-300.0), replcase.rep_to_atoms(rep2, id_base=-200.0)
+        if c01_domain(S2, P2, atol):
+            events.SCHEDULE["sample"] = "real"
+            obs2 = replcase.observe_replace(S2, P2, R2, case["s"] + 1, atol=atol, replace_all=case["replace_all"])
+            if obs2["found"] and obs2["exception"] is None and not replcase.matches_overlap(obs2["found"]):
+                case2 = dict(case, pattern=pat2["cls"], repl="back_to_search_pattern")
+                w2 = judge_placements(ctx, st, case2, pat2, rep2, S2, P2, R2, obs2, atol, label="second replacement on the returned structure after %s: " % how)
+                if w2 is not None:
+                    st.count("second_replacements_judged")
+                    st.seen("history", how)
+            else:
+                st.count("second_replacement_not_judged")
+        else:
+            st.count("second_replacement_out_of_domain")
     if wrapped is not None and (wrapped > 0 or case["cell"].startswith("tri")):
         ctx.nontrivial(case["s"])
     if wrapped and len(S) <= 18:
@@ -259,6 +293,9 @@ def requirements(stats, tier):
         need.append("copies straddling 0..3 faces not all observed")
     if stats.get("partial_replacements_selected_out_of_found_order") < (10 if tier == "quick" else 400):
         need.append("partial replacements whose selection order differs from the found order: %d" % stats.get("partial_replacements_selected_out_of_found_order"))
+    if stats.get("second_replacements_judged") < (60 if tier == "quick" else 8000) or stats.nseen("history") < 3:
+        need.append("second replacements on a returned structure whose cell was changed: %d judged, histories %s" %
+                    (stats.get("second_replacements_judged"), sorted(stats.sets.get("history", []))))
     if stats.get("joint_motion_relations_checked") < (40 if tier == "quick" else 6000):
         need.append("joint-motion relation checked only %d times" % stats.get("joint_motion_relations_checked"))
     return need
